@@ -193,9 +193,26 @@ func explicitOr(v, tableDefault string) string {
 	return v
 }
 
+// withoutRowIDKey: SQLite forces NOT NULL on the primary key columns of a WITHOUT ROWID table and reports
+// them so whatever their definition says. The NOT NULL of such a column on the CURRENT side therefore
+// carries no information about its definition, and moving to a nullable definition is not a reportable
+// nullability change (reporting it makes the table rebuild forever when the definition keeps the column
+// in the key). The other direction, nullable -> key column, is an ordinary change.
+func withoutRowIDKey(d Dialect, t *Table, col string) bool {
+	if d != SQLite || !t.WithoutRowID || t.PK == nil {
+		return false
+	}
+	for _, k := range t.PK.Cols {
+		if k == col {
+			return true
+		}
+	}
+	return false
+}
+
 func refColumn(d Dialect, ta *Table, a, b *Column) schema.ChangeKind {
 	var k schema.ChangeKind
-	if a.Null != b.Null {
+	if a.Null != b.Null && !(b.Null && withoutRowIDKey(d, ta, a.Name)) {
 		k |= schema.ChangeNull
 	}
 	if d == SQLite {
@@ -369,6 +386,9 @@ func Ambiguous(a, b *Model) string {
 					}
 				}
 			}
+		}
+		if why := ambiguousAutoIndexes(d, t, u); why != "" {
+			return why
 		}
 		for _, i := range t.Indexes {
 			if i.Name == "" {
